@@ -56,6 +56,15 @@ CLAIMED = {
    "exhaustive enumeration of all ordered pairs and triples of a near-collision pool (E1); every law evaluated on the real PartialEq/Hash/Ord/PartialOrd impls",
    "All |Π|² pairs and |Π|³ triples of a pool built for near-collisions (±0, same magnitude under different/absent units, Refs differing in dis, same payload under different kinds, dict/list/grid neighbours, equal instants in different zones, nested copies) are checked against reflexivity, symmetry, transitivity, clone, eq⇒hash (two hashers), antisymmetry and transitivity of cmp, cmp=Equal⇔==, partial⇒total, and the collection consequences (HashSet/BTreeSet/BTreeMap/sort+dedup see exactly the ==-classes), for Value and 15 typed values, plus Eq/Hash/PartialOrd over all database units.",
    "No NaN (excluded by the statement). Two hashers stand for 'any hasher'. Values outside the pool are covered only by the small-scope argument."),
+ "C13": ("model_checking", "DESIGN.md §5 C13",
+   "exhaustive enumeration of all defs grids over 3/4 symbols (all DAGs x conjunct / feature / choice / malformed-row variants) and of the real defs database; every namespace query executed on the real code against an adjacency-map reference",
+   "Every acyclic taxonomy over s0..s3 (is(si) over all subsets of the earlier symbols and an undefined one: all diamonds and multiple inheritance) x 64 conjunct assignments x 8 combinations of feature key / choice root / rows without def / non-Symbol entries (quick: 3 symbols, 32 768 namespaces; thorough: 4 symbols, 524 288): supertypes_of, all_supertypes_of, subtypes_of, all_subtypes_of, inheritance, choices_for, has_subtype, has/get, conjuncts_defs, fits on all ordered pairs over 12+ names incl. undefined ones; reflect, Reflection::fits and the filter ^sym on all 243 records. Plus tests/defs/defs.zinc (parsed by the reference Zinc reader and cross-checked): unary queries on all ~700 symbols, fits on all ordered pairs, reflect on 1-/2-tag marker records and every conjunct's tag set.",
+   "Cyclic `is` graphs are outside the statement. Answers compared as sets of def names."),
+ "C14": ("model_checking", "DESIGN.md §5 C14, Appendix B.2",
+   "explicit-state BFS (E3) over cache states under sequential histories on the genuine DashMap and on the hook Shim (identical transition graphs bind the model to the real thing) + exhaustive preemption-bounded exploration (E4+E2) of all interleavings of 2-3 logical threads running the real namespace code under a controlled scheduler",
+   "C14-H: breadth-first search to closure (864 cache states, 25 920 transitions) from the cold namespace with 30 concrete queries; every answer equals the cold answer and the graph's answer; run on the genuine DashMap in an isolated child with watchdog and on the Shim with deadlock detection. C14-S: 2 threads x 1 query (all 55 pairs of a 10-query core, cold and warm starts), 2 threads x 2 queries, 3 threads x 1 query (all 220 multisets), for the two extreme shard partitions (thorough: every partition of the touched supertypes keys), every schedule with <= 2 (thorough 3; 3 threads: 2) preemptions, scheduling points at every shard-lock acquisition and thread start/exit; the two shortest scenarios without bound. Oracle per execution: no deadlock, no panic, every answer equals the answer given alone, every final cache entry occurs in the sequential closure.",
+   "Hook: cfg(j2inn_libhaystack_verif) DashMap/HashSet look-alikes (commit in MANIFEST.hooks). The Shim's lock model (reader-preferring RW lock per shard) is read from dashmap-6.1.0/src/lock.rs and bound by C14-H; DashMap's own lock implementation and memory orderings below sequential consistency are trusted. Logical threads are stackful coroutines serialised on one OS thread (like loom); 4-16 threads and unbounded preemptions are out of reach of exhaustive exploration."),
+
  "C15": ("exploration", "DESIGN.md §5 C15",
    "exhaustive enumeration of the finite unit database x all identifiers x magnitudes, reference table parsed independently from units.txt",
    "Finite and complete: every unit of unit-gen/units.txt and every one of its ids is looked up (pointer identity), compared with the harness's own parse of units.txt, decoded from Zinc text in six number spellings and sent through both codecs with nine magnitudes; ~30 000 non-identifier strings (all strings <= 3 over the unit alphabet, every 1-edit of an id) must not be found.",
